@@ -19,6 +19,7 @@ from typing import Any, Dict, List, Optional, Tuple
 import plumpy
 from plumpy import persistence
 
+from .. import explore
 from ..vloop import VLoop
 
 ID = 'C14'
@@ -252,7 +253,8 @@ def bfs(args: Tuple[str, int, int]) -> Dict[str, Any]:
             continue
         for op in ops:
             new = hist + (op,)
-            system, bad = build(kind, new)
+            with explore.watchdog(4 * explore.WATCHDOG_S):
+                system, bad = build(kind, new)
             try:
                 out['transitions'] += 1
                 for clause, feats, detail in bad:
